@@ -153,6 +153,7 @@ type Explorer struct {
 	Started     time.Time
 	Deadline    time.Time
 	TimedOut    bool
+	DecideProfile map[string]int
 }
 
 // Pin fixes every nondet value (interpreter replay of a counterexample).
